@@ -64,7 +64,7 @@ func (x *lx) coq() string {
 	list := "[" + strings.Join(as, "; ") + "]"
 	switch x.op {
 	case "const":
-		return "(LConst " + lib.CoqValue(x.val) + ")"
+		return "(LConst " + exprh.CoqValue(x.val) + ")"
 	case "var":
 		return fmt.Sprintf("(LVar %d)", x.idx)
 	case "and":
@@ -565,7 +565,7 @@ func (g *engine) aggregateCase(r *lib.Rng, name string, base, xt octosql.Type, t
 		if e.IsWM {
 			continue
 		}
-		rows = append(rows, lib.CoqValues(e.Rec.Values))
+		rows = append(rows, exprh.CoqValues(e.Rec.Values))
 		outJS = append(outJS, lib.ValuesJSON(e.Rec.Values))
 		for i, val := range e.Rec.Values {
 			if i < len(schemaTypes) && !exprh.Conforms(val, schemaTypes[i]) {
@@ -650,7 +650,7 @@ func (g *engine) objectCase(r *lib.Rng, oc objCase, nrows int) {
 		runsJS = append(runsJS, map[string]interface{}{"row": lib.ValuesJSON(row), "observed": obs.JSON()})
 		switch obs.Kind {
 		case 0:
-			vals = append(vals, lib.CoqValue(obs.Val))
+			vals = append(vals, exprh.CoqValue(obs.Val))
 			cf.Count("objects:value_" + obs.Val.TypeID.String())
 			if !exprh.Conforms(obs.Val, pe.Type) {
 				bads = append(bads, fmt.Sprintf("%s over columns %v has static type %s but evaluated to %s on row %s",
